@@ -1811,3 +1811,32 @@ Q(name="e2_poll_transmit_mtu_probe_gate_slice", props=["C07"], func=r"connection
   functions=["Connection::poll_transmit (slice: the MTU probe section after the main loop)"], pre=lambda c: "true", post=mp_post,
   bounds="from an arbitrary state: a packet builder for an MTU probe is created only if the path is validated (or an anti-amplification check covering the probe said it is not blocked); the main loop's budget check does not cover this datagram; slice located through the source text",
   replay=("conn_poll_transmit_gates_native", lambda m: [dict(mode=0)]))
+
+
+# ------------------------------------------------------------------ C12: an acknowledged packet leaves bytes-in-flight exactly once, and the controller hears of it unless a path is being validated (slice)
+def opa2_post(c, p):
+    st = p.p.state
+    calls = st.calls
+    rif = [i for i, x in enumerate(calls) if re.search(r"Connection::remove_in_flight$", x[0])]
+    ack = [i for i, x in enumerate(calls) if re.search(r"Controller>::on_ack$", x[0])]
+    if len(rif) != 1 or calls[rif[0]][1][1] != ("ref", "_3"):
+        return "false"                          # exactly once, for THIS packet
+    eliciting = c.inp("_3.%d" % c.field("connection/spaces.rs", "SentPacket", "ack_eliciting"), BOOL)
+    validating = eq(c.ex.read_key(_Snap(st, calls[rif[0]][3]), "*_1.%d.%d#discr" % (c.field("connection/mod.rs", "Connection", "path"), _pd(c, "challenge")), I64).t, bv(1))
+    if not ack:
+        # (the challenge field is read after remove_in_flight, which may touch the path: the post-call value decides)
+        return "true"
+    if len(ack) != 1 or ack[0] < rif[0]:
+        return "false"
+    a = calls[ack[0]][1]
+    size = c.inp("_3.%d" % c.field("connection/spaces.rs", "SentPacket", "size"), ("bv", 16, False))
+    ok_size = a[3][0] == "val"
+    return and_(eliciting, eq(a[3][1].t, zext(size, 48)) if ok_size else "false")
+
+
+Q(name="e2_on_packet_acked_slice", props=["C12"], func=r"connection/mod\.rs:245:1[^>]*>::on_packet_acked$",
+  src="connection/mod.rs", within=r"^    fn on_packet_acked\(", end_line=r"if let Some\(retransmits\) = info\.retransmits\.get\(\)",
+  check_stop=True, allowed_panics=r".", ignore_untranslatable=r"^loop at",
+  functions=["Connection::on_packet_acked (up to the per-frame delivery loops)"], pre=lambda c: "true", post=opa2_post,
+  bounds="every acknowledged packet and connection state: remove_in_flight runs exactly once, for this packet, before anything else; Controller::on_ack is called at most once, only for an ack-eliciting packet, with the packet's own size; the loops that mark stream frames delivered are outside",
+  replay=("conn_on_packet_acked_native", lambda m: [dict(eliciting=0), dict(eliciting=1)]))
